@@ -10,7 +10,7 @@ ops
   rel <+|-> <n> <unit> <capS>               evaluateRelativeTime vs DuckDB interval arithmetic (at `now`)
   rmpart <tbl> <h|d> <idx> <keepFirst 0|1>  delete the files of a partition (all, or all but the first)
   inval                                     the real QueryHandler.InvalidateCaches (post-compaction hook)
-  paths <startNs> <endNs>                   GeneratePartitionPaths
+  paths <startNs> <endNs> <incl 0|1>        GeneratePartitionPaths (TimeRange.EndInclusive)
   ext <pred>                                ExtractTimeRange of `SELECT … WHERE <pred>`
   q|qc <qid> <kind> <hdr> <alias> <pred> [<pred>]      query (q: caches invalidated first; qc: caches kept)
        kind s single table · j join (pred on a) · u union (two preds) · b/B IN-subquery (inner, outer; b = subquery first)
@@ -101,8 +101,8 @@ def optNs : Option Int → String
   | some x => toString x
   | none => "err"
 
-def rangeStr : Option (Int × Int) → String
-  | some (s, e) => s!"{s},{e}"
+def rangeStr : Option (Int × Int × Bool) → String
+  | some (s, e, i) => s!"{s},{e},{if i then 1 else 0}"
   | none => "none"
 
 def partStr : Part → String
@@ -135,8 +135,7 @@ def setTable (s : DS) (name : String) (ds : Dataset) : DS :=
 def σ1 : Valuation := fun _ _ => true
 
 /-- plans for the tables a statement references (all pruned with the same text). -/
-def plansFor (s : DS) (txt : List BAtom) (tbls : List String) : List (String × Plan) :=
-  let rng := extract s.now txt
+def plansFor (s : DS) (rng : Option (Int × Int × Bool)) (tbls : List String) : List (String × Plan) :=
   tbls.map fun t => (t, planFor rng (table s t))
 
 def lookupPlan (plans : List (String × Plan)) (t : String) : Plan := (plans.lookup t).getD none
@@ -144,12 +143,8 @@ def lookupPlan (plans : List (String × Plan)) (t : String) : Plan := (plans.loo
 def runQuery (s : DS) (cached : Bool) (qid kind : String) (preds : List Pred) : DS × String :=
   let p1 := preds.headD (.atom (.base (.opaque 0)))
   let p2 := (preds.drop 1).headD (.atom (.base (.opaque 0)))
-  let txt : List BAtom :=
-    match kind with
-    | "s" => p1.text
-    | "j" => p1.text
-    | "B" => p2.text ++ p1.text
-    | _ => p1.text ++ p2.text
+  -- single-table statements: ExtractTimeRange of the statement; anything else (JOIN, UNION, subquery): nil
+  let rng : Option (Int × Int × Bool) := if kind == "s" then extractStmt s.now p1 else multiTableRange
   let tbls := if kind == "s" || kind == "u" then ["cpu"] else ["cpu", "mem"]
   let hit : Option Entry :=
     if cached then
@@ -159,7 +154,7 @@ def runQuery (s : DS) (cached : Bool) (qid kind : String) (preds : List Pred) : 
     else none
   let plans := match hit with
     | some e => e.plans
-    | none => plansFor s txt tbls
+    | none => plansFor s rng tbls
   let cache' := match hit with
     | some _ => s.cache
     | none => (qid, { setAt := s.now, plans := plans }) :: (if cached then s.cache.filter (fun p => p.1 != qid) else [])
@@ -183,7 +178,7 @@ def runQuery (s : DS) (cached : Bool) (qid kind : String) (preds : List Pred) : 
   let broken := planBroken (lookupPlan plans "cpu") cpu || (tbls.contains "mem" && planBroken (lookupPlan plans "mem") mem)
   let npS := if broken then "err" else toString np
   let planS := " ".intercalate (plans.map fun (t, pl) => s!"plan[{t}]={planStr pl}")
-  ({ s with cache := cache' }, s!"range={rangeStr (extract s.now txt)} {planS} rows={npS}/{nf}")
+  ({ s with cache := cache' }, s!"range={rangeStr rng} {planS} rows={npS}/{nf}")
 
 def parsePreds (n : Nat) (ts : List String) : Option (List Pred) :=
   match n with
@@ -240,13 +235,14 @@ def stepC18 (s : DS) (fs : List String) : DS × String :=
       let r := Rhs.rel (sg == "+") n u (cs == "1")
       (s, s!"go={optNs (r.go s.now)} db={r.db s.now}")
     | _, _ => (s, "bad-op")
-  | ["paths", a, b] =>
+  | ["paths", a, b, i] =>
     match int? a, int? b with
-    | some a, some b => (s, pathsStr (generatePaths a b))
+    | some a, some b =>
+      if i != "0" && i != "1" then (s, "bad-op") else (s, pathsStr (generatePaths a b (i == "1")))
     | _, _ => (s, "bad-op")
   | "ext" :: rest =>
     match parsePred 64 rest with
-    | some (p, []) => (s, rangeStr (extract s.now p.text))
+    | some (p, []) => (s, rangeStr (extractStmt s.now p))
     | _ => (s, "bad-op")
   | op :: qid :: kind :: _hdr :: _alias :: rest =>
     if op != "q" && op != "qc" then (s, "bad-op") else
